@@ -122,3 +122,36 @@ Proof.
   - eapply with_sql_shape; eassumption.
   - eapply select_sql_shape; eassumption.
 Qed.
+
+(* ------------------------------------------------------------------------------------------------ *)
+(* the other statement kinds                                                                          *)
+
+Section OtherKinds.
+Variables (R : rens) (q : query) (c : ctx).
+
+Lemma set_sql_shape p s p' : set_sql R q c p = Ok (s, p') -> exists r, s = L " SET " ++ r.
+Proof. unfold set_sql. cbv zeta. intro H. inv H. eexists. reflexivity. Qed.
+
+(* UPDATE (generic / MySQL / SQL Server / Oracle form): WITH, UPDATE <table>, joins, SET, FROM, WHERE *)
+Theorem generic_update_shape : forall p s p',
+  generic_update R q c p = Ok (s, p') ->
+  exists sw st sj ss sf swh,
+    s = sw ++ L "UPDATE " ++ st ++ sj ++ ss ++ sf ++ swh /\
+    kw_or_empty (L "WITH ") sw /\ kw_or_empty [32] sj /\ (exists r, ss = L " SET " ++ r) /\ kw_or_empty (L " FROM ") sf /\ kw_or_empty (L " WHERE ") swh.
+Proof.
+  intros p s p' H. unfold generic_update in H.
+  destruct (with_sql R q c p) as [[sw p1]|] eqn:E1; [|discriminate].
+  destruct (table_sql R c p1 (q_update_table q)) as [[st p2]|] eqn:E2; [|discriminate].
+  destruct (joins_sql R q c p2) as [[sj p3]|] eqn:E3; [|discriminate].
+  destruct (set_sql R q c p3) as [[ss p4]|] eqn:E4; [|discriminate].
+  destruct (from_sql R q c p4) as [[sf p5]|] eqn:E5; [|discriminate].
+  destruct (where_sql R q c p5) as [[swh p6]|] eqn:E6; [|discriminate].
+  inversion H; subst; clear H.
+  exists sw, st, sj, ss, sf, swh. repeat split.
+  - eapply with_sql_shape; eassumption.
+  - eapply joins_sql_shape; eassumption.
+  - eapply set_sql_shape; eassumption.
+  - eapply from_sql_shape; eassumption.
+  - eapply where_sql_shape; eassumption.
+Qed.
+End OtherKinds.
